@@ -47,9 +47,10 @@ class PipeConn(DebugConnection):
         self.runner = None
         super().__init__(*a, **k)
 
-    @property
-    def shared_memory(self):
+    def _shm(self):
         return self.ex._shared_memories[self._app_id]
+    _shm._pyvc_ghost = True
+    shared_memory = property(_shm)
 
     def _commit_serialized_message(self, raw_msg, block=True, callback=None):
         msg = deserialize_host_msg(raw_msg)
@@ -75,8 +76,18 @@ def make_pipeline(ctx, app_name="Alice", **conn_kw):
     DebugConnection.node_ids = {"Alice": 0, "Bob": 1, "Charlie": 2}
     ex = (PipeEx if ctx.symbolic else PipeNatEx)(name=app_name)
     ex.network_stack = Stack()
+    if ctx.symbolic:
+        from pyvc import models as M
+        # request tables keyed by (remote node, purpose) with possibly symbolic components
+        ex._epr_create_requests = M.SymKeyDict("Qc", [], default_factory=list)
+        ex._epr_recv_requests = M.SymKeyDict("Qr", [], default_factory=list)
     conn = PipeConn(app_name, executor=ex, **conn_kw)
     return conn, ex
+
+
+def table_entries(t):
+    """[(key, queue)] of a request table (dict or symbolic key dict)"""
+    return list(t.entries) if hasattr(t, "entries") else list(t.items())
 
 
 def drive(ctx, ex, subroutine, on_wait=None, max_waits=50):
